@@ -463,7 +463,7 @@ inline void gen_table(PTable &t, int level, int maxports, bool allow_sub) {
     p.kind = kind;
     if (kind == LEAF) {
       p.name = stem;
-      if (vf::chance(25)) p.name += "#" + std::to_string(vf::oneof<int>({1, 2, 3, 4, 10, 12}));
+      if (vf::chance(25)) p.name += "#" + std::to_string(vf::chance(8) ? vf::oneof<int>({100, 101, 104, 128}) : vf::oneof<int>({1, 2, 3, 4, 10, 12}));   // also three-digit indices
       if (vf::chance(4)) p.name += "/" + gen_stem(style);     // leaf with an inner '/'
       p.name += TYPESPECS[vf::pickn(11)];
     } else if (kind == RECUR || kind == RECURP) p.name = stem + "/";
